@@ -25,11 +25,11 @@ var (
 	DeadlineExceeded = context.DeadlineExceeded
 )
 
-func Background() Context                       { return context.Background() }
-func TODO() Context                             { return context.TODO() }
-func WithValue(p Context, k, v any) Context     { return context.WithValue(p, k, v) }
-func Cause(c Context) error                     { return context.Cause(c) }
-func WithoutCancel(p Context) Context           { return context.WithoutCancel(p) }
+func Background() Context                   { return context.Background() }
+func TODO() Context                         { return context.TODO() }
+func WithValue(p Context, k, v any) Context { return context.WithValue(p, k, v) }
+func Cause(c Context) error                 { return context.Cause(c) }
+func WithoutCancel(p Context) Context       { return context.WithoutCancel(p) }
 
 // AfterFunc is modelled with a managed thread that waits for ctx or stop.
 func AfterFunc(ctx Context, f func()) (stop func() bool) {
